@@ -44,6 +44,8 @@ class Boom(Exception):
 def make_target(kind, policy):
     cfg = {"generic": dict(GENERIC), "expected_route": b"\x01\x00" if kind != "cip" else b"", "fo_policy": policy.get("fo", "large"),
            "session_policy": policy.get("session", "ok"), "fc_policy": policy.get("fc", "ok"), "session_handle": policy.get("handle", 0x5EED0001),
+           "session_refuse_handle": policy.get("refuse_handle", 0), "session_refuse_status": policy.get("refuse_status", 1),
+           "lenient_session": policy.get("lenient", False),
            "conn_ids": [0xC0DE0001, 0xC0DE0002, 0xC0DE0003]}
     if kind == "logix":
         mem = {"/d": (123456789).to_bytes(4, "little"), "/arr": bytes(range(10)), "/big": bytes((i * 3) & 0xFF for i in range(600))}
@@ -233,6 +235,10 @@ def run_history(case, fault=None):
         pass
     finally:
         uninstall_shim()
+    info["audits_c11"] = [(code, detail) for prop, code, detail in tgt.audits if prop == "C11"]
+    info["frames"] = len(tgt.frames)
+    if case["policy"].get("session", "ok") == "refuse" and (tgt.fo_attempts or any(e["transport"] == "connected" for e in tgt.log)):
+        discs.append(Disc(f"{label}.traffic-after-refused-session", f"session registration was refused, yet the driver sent Forward Open / connected requests: {tgt.fo_attempts[:2]}"))
     info["ops"] = shim.ops
     info["op_kinds"] = "".join(shim.op_kinds)
     info["fault_fired"] = shim.fault_fired
@@ -292,7 +298,9 @@ def cases(draw):
         ops.insert(0, {"op": "open"})
     if kind == "cip":
         ops = [o for o in ops if o["op"] not in ("read", "write")] or [{"op": "open"}]
-    policy = draw(st.sampled_from([{}, {}, {"fo": "std"}, {"fo": "std"}, {"fo": "none"}, {"session": "refuse"}, {"fc": "refuse"}, {"fo": "std", "fc": "refuse"}]))
+    policy = draw(st.sampled_from([{}, {}, {"fo": "std"}, {"fo": "std"}, {"fo": "none"}, {"session": "refuse"}, {"fc": "refuse"}, {"fo": "std", "fc": "refuse"},
+                                   {"session": "refuse", "refuse_handle": 0x1234, "refuse_status": 0x69}, {"session": "refuse", "refuse_handle": 0xFFFFFFFF}, {"session": "refuse", "refuse_handle": 0x4321, "lenient": True},
+                                   {"session": "refuse", "lenient": True}]))
     policy = dict(policy, handle=draw(st.sampled_from([1, 0x5EED0001, 0xFFFFFFFF])))
     chunks = draw(st.sampled_from([[1 << 20], [1 << 20], [1, 2, 3, 500], [7], [3, 1 << 20], [24, 1, 1 << 20]]))
     return {"driver": kind, "ops": ops, "policy": policy, "chunks": chunks, "rot": draw(st.integers(0, 2)), "stride": 1, "phase": 0}
